@@ -1,5 +1,72 @@
-From Coq Require Import ZArith List Bool String.
-From V.C15 Require Import Model Spec MethodTable Proofs.
+(* C15 — the property, clause by clause.  Only statements; every proof is `exact lemma`. *)
+From Coq Require Import ZArith List Bool String Permutation.
+From V.C15 Require Import Model Spec MethodTable Run StrModel Proofs StrProofs.
+Open Scope Z_scope.
+
+(* the model's capture kinds and parameter kinds are exactly the regenerated method table *)
 Theorem table_matches_model : forall m, lookup (meth_name m) method_table = Some (by_pointer m, sig_of m).
 Proof. exact table_matches_model_l. Qed.
 Print Assumptions table_matches_model.
+
+(* "return, for every receiver and every combination of supplied and omitted arguments, what
+   their documentation specifies, including negative and out-of-range indexes and variadic
+   items": for every receiver (any length, any elements incl. nested arrays) and every argument
+   tuple in the specified shapes (index positions: an int of any size, null, or omitted; any
+   number of variadic items of any kind), the call through the binder returns the documented
+   (JavaScript) result AND leaves the documented receiver:
+   push, pop, shift, unshift, slice, splice, concat, join, reverse, indexOf, includes, flat *)
+Theorem call_is_spec : forall m l args p, spec_call m l args = Some p -> call m l args = p.
+Proof. exact call_is_spec_l. Qed.
+Print Assumptions call_is_spec.
+
+(* callback methods, for EVERY callback f (any Gallina function of element, index, array):
+   map, filter, find, findIndex, forEach, every, some, flatMap *)
+Theorem call_cb_is_spec : forall m f l p, spec_cb m f l = Some p -> call_cb m f l = p.
+Proof. exact call_cb_is_spec_l. Qed.
+Print Assumptions call_cb_is_spec.
+
+(* reduce(cb, initial?) for every reducer; an omitted (or null) initial value starts from the
+   first element *)
+Theorem reduce_is_spec : forall f l init,
+  call_reduce f l init =
+  (js_reduce f l (match init with x :: _ => if is_null x then None else Some x | [] => None end), l).
+Proof. exact reduce_is_spec_l. Qed.
+Print Assumptions reduce_is_spec.
+
+(* sort(): the result (= the receiver afterwards) is ascending by text, a permutation of the
+   receiver, and stable (elements with equal text keep their order) *)
+Theorem sort_sorted : forall l, sorted_by_text (ssort l).
+Proof. exact ssort_sorted_l. Qed.
+Theorem sort_permutation : forall l, Permutation l (ssort l).
+Proof. exact ssort_perm_l. Qed.
+Theorem sort_stable : forall t l, filter (same_text_as t) (ssort l) = filter (same_text_as t) l.
+Proof. exact ssort_stable_l. Qed.
+Print Assumptions sort_sorted.
+Print Assumptions sort_permutation.
+Print Assumptions sort_stable.
+
+(* "The methods documented as mutating change the receiver exactly as specified [call_is_spec,
+   sort_*], and all others leave it untouched" *)
+Theorem nonmutating_frame : forall m l args, documented_mutating m = false -> snd (call m l args) = l.
+Proof. exact nonmutating_frame_l. Qed.
+Theorem nonmutating_frame_cb : forall m f l, snd (call_cb m f l) = l.
+Proof. exact nonmutating_frame_cb_l. Qed.
+(* the documented-mutating methods are exactly those that capture the slot list by pointer in
+   the regenerated table, plus reverse (which swaps in place through the shared backing array) *)
+Theorem mutating_as_documented : forall m,
+  documented_mutating m = by_pointer m || (match m with MReverse => true | _ => false end).
+Proof. exact mutating_table_l. Qed.
+Print Assumptions nonmutating_frame.
+
+(* string methods (length, indexOf, substring, replace, split, trim, toUpperCase, toLowerCase,
+   startsWith, endsWith): on the specified argument shapes the modelled body (argument coercion,
+   clamping, swap) yields the documented result; substring for every int start/end, null or
+   omitted end *)
+Theorem string_call_is_spec : forall m s args r, sspec m s args = Some r -> scall m s args = Some r.
+Proof. exact scall_is_spec_l. Qed.
+Theorem substring_is_js : forall s a e slots,
+  slot 0 slots = EInt a ->
+  slot 1 slots = match e with Some b => EInt b | None => ENull end ->
+  m_substring s slots = Some (js_substring s a e).
+Proof. exact m_substring_spec. Qed.
+Print Assumptions string_call_is_spec.
